@@ -561,6 +561,8 @@ def check_dataset(case, root, pq, ctx=None, verbose=False):
         ids = [int(x) for x in out["id"]] if "id" in out.columns else []
         if sorted(ids) != sorted(alive):
             problems.append("row ids read back %r, expected the rows with non-null keys %r" % (sorted(ids)[:20], sorted(alive)[:20]))
+        elif pf.count() != len(alive) or int(pf.fmd.num_rows) != len(alive):
+            problems.append("count() %r / num_rows %r, rows with non-null keys %d" % (pf.count(), pf.fmd.num_rows, len(alive)))
         pcols = on if hive else ["dir%d" % j for j in range(len(on))]
         # ParquetFile.cats (observe_at): per partition column the set of key values present
         if hive and alive and not problems:
